@@ -10,9 +10,11 @@ M = []
 R = []
 
 
-def mutant(name, edits, expect, also=(), note=""):
+def mutant(name, edits, expect, also=(), note="", base=None):
+    """`base`: a kept refactor patch (refactors/<name>/patch.diff) applied
+    first, so the mutation is made to the refactored shape of the code."""
     M.append({"name": name, "edits": edits, "expect": list(expect),
-              "also": list(also), "note": note})
+              "also": list(also), "note": note, "base": base})
 
 
 def refactor(name, edits, note=""):
@@ -433,3 +435,15 @@ mutant("c17-bare-leaf-error",
             "                if *collect {\n                return Err(Error::ListCollectOutsideDestructure);"),
         ],
        [("C17", "L3")])
+
+
+# ---- mutants of refactored trees (refactors/<name>/patch.diff applied first) --
+RB = "refactors/binop/patch.diff"
+mutant("rb-div-wrapping", [(E, "            BinaryOp::Div => a.checked_div(b),", "            BinaryOp::Div => Some(a.wrapping_div(b)),")],
+       [("C06", "R06.1")], base=RB, note="binop refactor + wrapping division")
+mutant("rb-mod-zero-some", [(E, "                if b == 0 {\n                    None\n                } else {", "                if b == 0 {\n                    Some(0)\n                } else {")],
+       [("C06", "R06.1")], base=RB, note="binop refactor + `% 0` answers 0")
+mutant("rb-sub-swapped", [(E, "            BinaryOp::Sub => a.checked_sub(b),", "            BinaryOp::Sub => b.checked_sub(a),")],
+       [("C06", "R06.1")], base=RB)
+mutant("rb-overflow-default", [(E, "        None => Err(new_int_overflow(op, op_loc, a, b)),", "        None => Ok(Value::Int(i64::MAX)),")],
+       [("C06", "R06.1")], base=RB, note="binop refactor + saturate on overflow")
